@@ -192,6 +192,9 @@ def native_rectgeo(arg, values):
         s = _val(values, 'surf%d' % k, org[2] - 0.4 * dz[0])
         geo.columnlist[k].surface = s; geo.set_column_num_layers(geo.columnlist[k]); surf[k] = s
     geo.setup_block_name_index(); geo.setup_block_connection_name_index()
+    rot = arg[6] if len(arg) > 6 and isinstance(arg[6], int) else 0
+    if rot:
+        geo.rotate(rot, np.array([_val(values, 'rcx', 1.5), _val(values, 'rcy', -2.5)])); geo.permeability_angle = -rot
     grid = t2grid().fromgeo(geo)
     try:
         geo2, bm = grid.rectgeo(atmos_type=atm, convention=convention)
@@ -205,12 +208,13 @@ def native_rectgeo(arg, values):
     else:
         for ci, c in enumerate(geo2.columnlist):
             i, j = ci % nx, ci // nx
-            bb = c.bounding_box
-            want = (org[0] + sum(dx[:i]), org[1] + sum(dy[:j]), org[0] + sum(dx[:i + 1]), org[1] + sum(dy[:j + 1]))
-            if not all(close(a, b) for a, b in zip((bb[0][0], bb[0][1], bb[1][0], bb[1][1]), want)): bad.append('column %d box %r, original %r' % (ci, bb, want))
+            bb, b1 = c.bounding_box, geo.columnlist[ci].bounding_box
+            got, want = (bb[0][0], bb[0][1], bb[1][0], bb[1][1]), (b1[0][0], b1[0][1], b1[1][0], b1[1][1])
+            if not all(abs(a - b) <= 1e-7 * max(1., abs(a), abs(b)) for a, b in zip(got, want)): bad.append('column %d box %r, original %r' % (ci, got, want))
             if not close(c.surface, surf[ci]): bad.append('column %d surface %r, original %r' % (ci, c.surface, surf[ci]))
     if geo2.atmosphere_type != atm or geo2.convention != convention: bad.append('atmosphere type / convention not as requested')
-    if abs(geo2.permeability_angle) > 1e-9 or abs(geo2.layerlist[0].bottom - org[2]) > 1e-9 * max(1., abs(org[2])): bad.append('orientation %r / top elevation %r, original 0 / %r' % (geo2.permeability_angle, geo2.layerlist[0].bottom, org[2]))
+    dang = (geo2.permeability_angle + rot) % 360.
+    if min(dang, 360. - dang) > 1e-6 or abs(geo2.layerlist[0].bottom - org[2]) > 1e-9 * max(1., abs(org[2])): bad.append('orientation %r / top elevation %r, original %r / %r' % (geo2.permeability_angle, geo2.layerlist[0].bottom, -rot, org[2]))
     try:
         g2 = t2grid().fromgeo(geo2, bm)
         n1, n2 = [b.name for b in grid.blocklist], [b.name for b in g2.blocklist]
